@@ -220,7 +220,7 @@ class Pool:
         t0 = time.time()
         try:
             p = subprocess.run(["/usr/bin/prlimit", "--cpu=%d" % self.cpu_limit, self.worker, "-test.run", "^TestSim$", "-test.timeout", "0", "-spec", sp, "-result", rp],
-                               stdout=subprocess.PIPE, stderr=subprocess.PIPE, env=env, timeout=timeout, cwd="/")
+                               stdin=subprocess.DEVNULL, stdout=subprocess.PIPE, stderr=subprocess.PIPE, env=env, timeout=timeout, cwd="/")
         except subprocess.TimeoutExpired:
             self._cleanup(d, sp, rp)
             return "wall-clock timeout after %ds" % timeout
